@@ -123,7 +123,9 @@ func CheckOne(in string, keepNumbers bool) (kind, what, out string) {
 
 var numbersFull = []string{"0", "-0", "1", "-1", "10", "100", "1000", "-1000", "1000000", "0.5", "-0.5", "0.0", "1.0", "1.50", "0.001", "0.0001",
 	"1e3", "1E+2", "1e-2", "1e400", "1e-400", "123456789012345678901234567890", "0.1e1", "10e-1", "12.5e1", "5e-1", "-5e-1", "1e0", "0e5",
-	"0.0e-0", "100e-2", "1.0e+0", "9007199254740993", "0.000001", "1e21", "1e-7", "-0.0", "0.10", "1e00", "1E01", "0.5e0", "-0.05e1", "0.00050", "99.5", "1e-0"}
+	"0.0e-0", "100e-2", "1.0e+0", "9007199254740993", "0.000001", "1e21", "1e-7", "-0.0", "0.10", "1e00", "1E01", "0.5e0", "-0.05e1", "0.00050", "99.5", "1e-0",
+	// exponents at the limits of int64, with and without digits behind the dot
+	"1.5e-9223372036854775808", "0.25E-9223372036854775807", "123.4567e-9223372036854775805", "15e-9223372036854775808", "1.5e9223372036854775807", "12.5e9223372036854775806", "0.01e9223372036854775807", "1e9223372036854775808", "1e-9223372036854775809"}
 var stringsFull = []string{`""`, `"a"`, `"A\"\\\/"`, `"1"`, `"é"`, `"é\n"`, `" "`, `"-1"`, `"1e3"`}
 var literals = []string{"true", "false", "null"}
 
